@@ -137,6 +137,13 @@ def strat_history(draw, tier, complete_only=False):
                 "start_at": draw(st.one_of(st.integers(0, length + 1),
                                            st.integers(-3, length + 1)))
                 if explicit_pos else None,
+                # an explicit position may also be given relative to a field
+                # that already has one: [k, d] = d bits above the current
+                # top of the k-th explicitly positioned field
+                "start_rel": draw(st.one_of(
+                    st.none(), st.tuples(st.integers(0, 7),
+                                         st.integers(-1, 3)).map(list)))
+                if explicit_pos else None,
                 "tags": draw(st.one_of(
                     st.none(), st.none(),
                     st.lists(st.sampled_from(TAGS), max_size=2)
@@ -295,6 +302,15 @@ def _do_add(model, bf, step, stats):
             f["max"] = max(f["max"], values[f["name"]])
             f["seen"].add(values[f["name"]])
     ln, start = step["length"], step["start_at"]
+    rel = step.get("start_rel")
+    if start is not None and rel:
+        anchored = [f for n in model.nodes for f in n.fields
+                    if f["start"] is not None]
+        if anchored:
+            f = anchored[rel[0] % len(anchored)]
+            top = f["start"] + (f["length"] if f["length"] is not None
+                                else max(1, f["max"].bit_length()))
+            start = top + rel[1]
     must_reject = None
     if start is not None:
         if start < 0 or start >= model.length or \
